@@ -20,19 +20,28 @@ pub struct LongCfg {
     pub reopen_every: u32,
     pub reader_from: u32,
     pub reader_to: u32,
+    /// a chain of overlapping readers: one opens every `chain_every` transactions and lives
+    /// `chain_life` (> chain_every) transactions, so a reader is open whenever a writer begins
+    pub chain_every: u32,
+    pub chain_life: u32,
 }
 
 pub fn draw(seed: u64, thorough: bool, pagesize: u64) -> LongCfg {
     let mut r = Rng::new(mix(seed, 0x10A6));
     let txs = if thorough { *r.pick(&[1000u32, 2000, 3000]) } else { *r.pick(&[300u32, 450, 600]) };
-    let reader = r.chance(1, 3);
+    let mode = r.below(4);
+    let reader = mode == 0;
+    let chain = mode == 1;
+    let chain_every = r.range(1, 4) as u32;
     let from = r.range(txs as u64 / 10, txs as u64 / 3) as u32;
     LongCfg {
         workload: r.below(5) as u32,
         txs,
         keys: *r.pick(&[4u32, 16, 64]),
         vsize: *r.pick(&[16u32, 200, pagesize as u32, pagesize as u32 * 3 + 11]),
-        reopen_every: if reader { 0 } else { *r.pick(&[0u32, 0, 7, 50]) },
+        reopen_every: if reader || chain { 0 } else { *r.pick(&[0u32, 0, 7, 50]) },
+        chain_every: if chain { chain_every } else { 0 },
+        chain_life: if chain { chain_every + r.range(1, 6) as u32 } else { 0 },
         reader_from: if reader { from } else { 0 },
         reader_to: if reader { from + r.range(5, (txs / 4).max(6) as u64) as u32 } else { 0 },
     }
@@ -142,8 +151,11 @@ fn one_tx(tx: &Tx, m: &mut MBucket, lc: &LongCfg, t: u32, r: &mut Rng, ps: u64) 
                 let n = b.create_bucket("nested")?;
                 let _ = mb.create_bucket(b"nested");
                 let mn = sub(mb, b"nested");
-                n.put("x", vec![7u8; 300])?;
-                let _ = mn.put(b"x", &[7u8; 300]);
+                // sometimes larger than a page: the nested bucket then owns overflow pages,
+                // and it is deleted later without ever being opened
+                let nl = if lc.vsize as u64 >= ps { ps as usize * 2 + 100 } else { 300 };
+                n.put("x", vec![7u8; nl])?;
+                let _ = mn.put(b"x", &vec![7u8; nl]);
             }
         }
         // mixed: overwrite a random subset, delete a few, re-add
@@ -189,15 +201,18 @@ fn run(case: &Case, dir: &str) -> Verdict {
             reopen_every: l["reopen_every"].as_u64().unwrap_or(0) as u32,
             reader_from: l["reader_from"].as_u64().unwrap_or(0) as u32,
             reader_to: l["reader_to"].as_u64().unwrap_or(0) as u32,
+            chain_every: l["chain_every"].as_u64().unwrap_or(0) as u32,
+            chain_life: l["chain_life"].as_u64().unwrap_or(0) as u32,
         },
         None => draw(case.seed, thorough, case.pagesize),
     };
     let ps = case.pagesize;
     // a reader and a growing writer on one thread self-deadlock: start big when one is held
-    let np = if lc.reader_to > 0 { (256 * 1024 * 1024 / ps) as usize } else { case.num_pages };
+    let np = if lc.reader_to > 0 || lc.chain_every > 0 { (256 * 1024 * 1024 / ps) as usize } else { case.num_pages };
     let mut v = Verdict::default();
     v.extra_out = json!({"long": {"workload": lc.workload, "txs": lc.txs, "keys": lc.keys, "vsize": lc.vsize,
-        "reopen_every": lc.reopen_every, "reader_from": lc.reader_from, "reader_to": lc.reader_to}});
+        "reopen_every": lc.reopen_every, "reader_from": lc.reader_from, "reader_to": lc.reader_to,
+        "chain_every": lc.chain_every, "chain_life": lc.chain_life}});
     let mut r = Rng::new(mix(case.seed, 0x77));
     let mut model = MBucket::default();
     let mut samples: Vec<Sample> = Vec::with_capacity(lc.txs as usize);
@@ -216,8 +231,41 @@ fn run(case: &Case, dir: &str) -> Verdict {
         let end = if lc.reopen_every > 0 { (t + lc.reopen_every).min(lc.txs) } else { lc.txs };
         let dbr = db.as_ref().unwrap();
         let mut reader: Option<(Tx, MBucket)> = None;
+        let mut chain: std::collections::VecDeque<(Tx, MBucket, u32)> = Default::default();
         let mut err: Option<Violation> = None;
         while t < end {
+            if lc.chain_every > 0 {
+                // close readers that lived long enough (oldest first), verifying their snapshot
+                while chain.front().map(|c| t >= c.2 + lc.chain_life).unwrap_or(false) {
+                    let (tx, snap, born) = chain.pop_front().unwrap();
+                    let mut incons = Vec::new();
+                    match catch(|| walk_tx(&tx, &mut incons)) {
+                        Ok(m) => {
+                            if let Some(d) = diff(&m, &snap, false) {
+                                err = Some(fail("growth-snapshot", "chained reader", format!("reader opened at transaction {} lost its snapshot: {}", born, d)));
+                            }
+                        }
+                        Err(p) => err = Some(fail("growth-snapshot", "chained reader", format!("reader opened at transaction {} panicked: {}", born, p))),
+                    }
+                    drop(tx);
+                }
+                if err.is_some() {
+                    break;
+                }
+                if t % lc.chain_every == 0 {
+                    match catch(|| dbr.tx(false)) {
+                        Ok(Ok(tx)) => chain.push_back((tx, model.clone(), t)),
+                        _ => {
+                            err = Some(fail("open", "tx(false)", "cannot open a chained reader".into()));
+                            break;
+                        }
+                    }
+                    *v.counters.entry("chained_readers".into()).or_default() += 1;
+                }
+                if chain.len() >= 2 {
+                    *v.counters.entry("writer_began_with_overlapping_readers".into()).or_default() += 1;
+                }
+            }
             if lc.reader_to > 0 && t == lc.reader_from {
                 match catch(|| dbr.tx(false)) {
                     Ok(Ok(tx)) => reader = Some((tx, model.clone())),
@@ -247,7 +295,7 @@ fn run(case: &Case, dir: &str) -> Verdict {
                     hwm_at_reader_close = Some((t, samples.last().map(|s| s.hwm).unwrap_or(0)));
                 }
             }
-            if reader.is_some() {
+            if reader.is_some() || !chain.is_empty() {
                 // growing the file while this thread holds a reader would block forever on the
                 // map lock (documented misuse): stop before a commit could need to grow
                 if let Some(s) = samples.last() {
@@ -284,6 +332,7 @@ fn run(case: &Case, dir: &str) -> Verdict {
             t += 1;
         }
         drop(reader);
+        drop(chain);
         if let Some(e) = err {
             // not C10's business: some other property's oracle
             v.aborted = Some(e);
@@ -337,7 +386,9 @@ fn run(case: &Case, dir: &str) -> Verdict {
     }
     let max_live = samples.iter().map(|s| s.live).max().unwrap();
     let in_hold = |i: usize| lc.reader_to > 0 && (i as u32) >= lc.reader_from && (i as u32) < lc.reader_to + 6;
-    let bound = 5 * max_live + 16;
+    // with a chain of readers, pages freed during a reader's life stay pending: the mark may
+    // additionally hold what (life + 2) transactions free, each at most the live size
+    let bound = if lc.chain_every > 0 { (lc.chain_life as u64 + 7) * max_live + 16 } else { 5 * max_live + 16 };
     let mut worst = (0u64, 0usize);
     for (i, s) in samples.iter().enumerate() {
         if lc.reader_to > 0 && (i as u32) >= lc.reader_from {
